@@ -1,7 +1,7 @@
 'use strict'
 // E2.2: grammar-directed random programs over the observable world, dense in instrumentable operations,
 // with aliasing (operands reassigned by later operands), closures, recursion, generators and async.
-// Known-defect shapes (DESIGN 7: D5, D17, D21) are not generated here; they have dedicated witness programs.
+// Known-defect shapes (DESIGN 7: D21...) are not generated here; they have dedicated witness programs.
 
 const METHODS = ['trim', 'concat', 'substring', 'slice', 'replace', 'toUpperCase', 'padStart', 'repeat', 'trimEnd']
 const UNLISTED = ['charAt', 'indexOf', 'startsWith', 'normalize']
@@ -171,7 +171,6 @@ class Gen {
   }
 
   optional (d) {
-    // single, non-nested optional chains only (nested ones are DESIGN 7-D17)
     const r = this.rng
     const strs = this.locals('str')
     const base = r.weighted([
@@ -188,7 +187,12 @@ class Gen {
       [1, () => `w.o${this.id()}?.s${this.id()}.trim()`],
       [1, () => `${base}?.charAt(0)`],
       [1, () => `w.o${this.id()}.${r.bool() ? 'f1' : 'u1'}?.(${simpleArg()}).trim()`],
-      [0.6, () => `w.o${this.id()}.${r.pick(['s1', 'i1', 'f1'])}?.(w.f${this.id()}(), ...w.it${this.id()}).trim()`]
+      [0.6, () => `w.o${this.id()}.${r.pick(['s1', 'i1', 'f1'])}?.(w.f${this.id()}(), ...w.it${this.id()}).trim()`],
+      // chains nested in the arguments, computed keys and callbacks of a chain
+      [d > 0 ? 1.2 : 0, () => `${base}?.concat(${this.optional(d - 1)}, ${simpleArg()})`],
+      [d > 0 ? 0.8 : 0, () => `w.o${this.id()}?.s${this.id()}.trim().concat(w.cb${this.id()}((x) => ${this.optional(d - 1)}))`],
+      [d > 0 ? 0.6 : 0, () => `w.id${this.id()}(${this.optional(d - 1)})?.trim()`],
+      [d > 0 ? 0.5 : 0, () => `w.o${this.id()}?.[${this.optional(d - 1)} ?? 's1'].trim()`]
     ])()
   }
 
